@@ -115,8 +115,10 @@ StartCall(m, calls) ==
              vm == Len(m.vms) + 1
              m1 == [m EXCEPT !.vms = Append(@, [ops |-> 0, max |-> c.max, scopes |-> <<[s |-> "host", nid |-> c.nid]>>]),
                              !.ci = @ + 1, !.cvm = vm, !.nev = 0, !.looked = {}, !.ev = <<>>, !.k = <<>>]
-         IN IF c.tree.k = "none" THEN  \* parse() returned None: eval returns None without a VM
-                [m1 EXCEPT !.ctl = [t |-> "ret", v |-> None]]
+         IN IF c.tree.k = "parsefail" THEN  \* parse() raised: no VM record is created, nothing is evaluated
+                [m EXCEPT !.ci = @ + 1, !.k = <<>>, !.looked = {}, !.nev = 0,
+                          !.results = Append(@, [outcome |-> [t |-> "exc", e |-> [exc |-> "any", name |-> "?"]], ops |-> 0, nev |-> 0, looked |-> {}]),
+                          !.ev = <<[e |-> "end", out |-> [t |-> "exc", e |-> [exc |-> "any", name |-> "?"]], ops |-> 0, nev |-> 0, looked |-> {}]>>]
             ELSE IF Len(c.ast) > 0 THEN
                 [m1 EXCEPT !.k = <<[f |-> "ast", name |-> c.ast[1].name, rest |-> Tail(c.ast), main |-> c.tree, vm |-> vm]>>,
                            !.ctl = [t |-> "eval", node |-> c.ast[1].tree, vm |-> vm]]
@@ -125,8 +127,13 @@ StartCall(m, calls) ==
 (***************************************************************************)
 (* Step: Charge (ast_ops.py:19-22).  The only place ops changes.           *)
 (***************************************************************************)
+\* Normative: every node evaluation is charged to the VM record of the eval call in progress
+\* (property C01: "one eval call starts at most N operations ... including every evaluation of a
+\* lambda body").  Shipped code (deviation ClosureChargesCreator): a lambda body is evaluated with
+\* the VMState captured by the closure, i.e. charged to the record of the call that created it.
+ChargedVm(m) == IF Dev("ClosureChargesCreator") THEN m.ctl.vm ELSE m.cvm
 Charge(m) ==
-    LET node == m.ctl.node  vm == m.ctl.vm
+    LET node == m.ctl.node  vm == ChargedVm(m)
         ops1 == m.vms[vm].ops + 1
         max == m.vms[vm].max
         raised == max # Unlimited /\ ops1 >= max
@@ -134,7 +141,7 @@ Charge(m) ==
     IN IF raised
        THEN [m1 EXCEPT !.ctl = [t |-> "exc", e |-> OpsLimitErr],
                        !.ev = <<EvCharge(node, vm, ops1, TRUE), EvExc(node, OpsLimitErr)>>]
-       ELSE [m1 EXCEPT !.ctl = [t |-> "disp", node |-> node, vm |-> vm],
+       ELSE [m1 EXCEPT !.ctl = [t |-> "disp", node |-> node, vm |-> m.ctl.vm],
                        !.ev = <<EvCharge(node, vm, ops1, FALSE)>>]
 
 (***************************************************************************)
@@ -195,17 +202,19 @@ ShortApply(m, fr, v) ==
 
 \* SliceOp: safe_cast(x, int) on each bound in order
 SliceCast(v) == IF v.t = "none" THEN None ELSE (LET r == PyInt(v) IN IF IsIntRep(r) THEN MkInt(r) ELSE r)
-SliceApply(m, fr, acc) ==
-    LET a == SliceCast(acc[1])  b == SliceCast(acc[2])  c == SliceCast(acc[3])
-        bad == IF ~IsVal(a) THEN a ELSE IF ~IsVal(b) THEN b ELSE IF ~IsVal(c) THEN c ELSE None IN
-    IF ~IsVal(a) \/ ~IsVal(b) \/ ~IsVal(c) THEN PopRes(m, fr.node, R(m.heap, bad))
-    ELSE PopRet(m, fr.node, [t |-> "slice", a |-> a, b |-> b, c |-> c])
-
 \* DictOp: keys were cast when they returned; acc = <<k1, v1, k2, v2, ...>> with k_i cps
 RECURSIVE BuildDict(_, _, _)
 BuildDict(acc, i, ps) == IF i > Len(acc) THEN ps ELSE BuildDict(acc, i + 2, DSet(ps, acc[i].key, acc[i + 1].val))
 
-RetToNode(m, fr, v) ==
+\* a ** b outside the exactly specified cases: adopt the observed result if it is a Decimal of
+\* at most Prec digits (or an arithmetic signal)
+PowOracle(m, node, orc) ==
+    IF orc.t = "noorc" THEN LeftDomain(m, "oracle needed: pow")
+    ELSE IF orc.t = "raise" THEN (IF orc.e.exc = "Other" THEN PopExc(m, node, orc.e) ELSE [m EXCEPT !.ctl = [t |-> "badoracle", why |-> "** raised a language-level error"]])
+    ELSE IF orc.t = "val" /\ orc.v.t = "dec" /\ ~orc.v.sub /\ Len(orc.v.digs) <= Prec THEN PopRet(m, node, orc.v)
+    ELSE [m EXCEPT !.ctl = [t |-> "badoracle", why |-> "** result is not a Decimal of at most 28 digits"]]
+
+RetToNode(m, fr, v, orc) ==
     LET node == fr.node  nch == Len(node.ch)  acc1 == Append(fr.acc, v) IN
     CASE node.k = "code" ->
             IF fr.pc < nch THEN EvalChild(SetTop(m, [fr EXCEPT !.pc = @ + 1]), fr, fr.pc + 1)
@@ -218,7 +227,8 @@ RetToNode(m, fr, v) ==
                         ELSE PopRet(m, node, v))
                   ELSE PopRet(m, node, v))
             ELSE IF fr.pc = 1 THEN EvalChild(SetTop(m, [fr EXCEPT !.pc = 2, !.acc = acc1]), fr, 2)
-            ELSE PopRes(m, node, BinApply(m.heap, node.op, fr.acc[1], v))
+            ELSE LET res == BinApply(m.heap, node.op, fr.acc[1], v) IN
+                 IF "oracle" \in DOMAIN res.r THEN PowOracle(m, node, orc) ELSE PopRes(m, node, res)
       [] node.k = "un" -> PopRes(m, node, UnaryApply(m.heap, node.op, v))
       [] node.k = "assign" ->
             LET cp == DeepCopy(m.heap, v) IN
@@ -229,8 +239,12 @@ RetToNode(m, fr, v) ==
             THEN (LET b == IF Truthy(m.heap, v) THEN 2 ELSE 3 IN EvalChild(SetTop(m, [fr EXCEPT !.pc = b]), fr, b))
             ELSE PopRet(m, node, v)
       [] node.k = "slice" ->
-            IF fr.pc < 3 THEN EvalChild(SetTop(m, [fr EXCEPT !.pc = @ + 1, !.acc = acc1]), fr, fr.pc + 1)
-            ELSE SliceApply(m, fr, acc1)
+            \* slice(safe_cast(start.eval(), int), safe_cast(stop.eval(), int), ...): each bound is cast
+            \* as soon as it is evaluated, before the next bound is evaluated
+            LET cv == SliceCast(v) IN
+            IF ~IsVal(cv) THEN PopRes(m, node, R(m.heap, cv))
+            ELSE IF fr.pc < 3 THEN EvalChild(SetTop(m, [fr EXCEPT !.pc = @ + 1, !.acc = Append(@, cv)]), fr, fr.pc + 1)
+            ELSE LET a == Append(fr.acc, cv) IN PopRet(m, node, [t |-> "slice", a |-> a[1], b |-> a[2], c |-> a[3]])
       [] node.k = "dict" ->
             LET isKey == fr.pc % 2 = 1
                 kc == IF isKey THEN DictKeyCast(m.heap, v) ELSE <<>>
@@ -514,11 +528,11 @@ FinishCall(m, outcome) ==
               !.ctl = [t |-> "start"],
               !.ev = <<[e |-> "end", out |-> outcome, ops |-> m.vms[m.cvm].ops, nev |-> m.nev, looked |-> m.looked]>>]
 
-DoRet(m) ==
+DoRet(m, orc) ==
     LET v == m.ctl.v  m0 == [m EXCEPT !.ev = <<>>] IN
     IF Len(m.k) = 0 THEN FinishCall(m0, [t |-> "ok", v |-> v])
     ELSE LET fr == Top(m.k) IN
-         CASE fr.f = "node" -> RetToNode(m0, fr, v)
+         CASE fr.f = "node" -> RetToNode(m0, fr, v, orc)
            [] fr.f = "lam" -> PopScope([m0 EXCEPT !.k = Pop(@)], fr.vm)
            [] fr.f = "ho" -> RetToHo(m0, fr, v)
            [] fr.f = "host" -> [m0 EXCEPT !.k = Pop(@)]
@@ -561,7 +575,7 @@ Step(m, calls, host, orc) ==
       [] m.ctl.t = "disp" -> Dispatch(m)
       [] m.ctl.t = "resolve" -> Resolve(m)
       [] m.ctl.t = "call" -> ApplyCall(m, host, orc)
-      [] m.ctl.t = "ret" -> DoRet(m)
+      [] m.ctl.t = "ret" -> DoRet(m, orc)
       [] m.ctl.t = "exc" -> DoExc(m)
 
 =============================================================================
